@@ -26,6 +26,7 @@ type c15Case struct {
 const c15Port = "6379"
 
 type c15World struct {
+	inCall  string // the lifecycle call the harness thread is inside ("" between calls)
 	tls     bool
 	kit     *tlsKit
 	prog    string
@@ -78,7 +79,9 @@ func (w *c15World) body() {
 		pos := fmt.Sprintf("step %d (%c) of %s", i, step, w.prog)
 		switch step {
 		case 'S':
+			w.inCall = pos + ": Start"
 			err := w.srv.Start()
+			w.inCall = ""
 			if w.running {
 				if err == nil {
 					w.fail("second-start-succeeded", pos+": Start on a running server returned nil")
@@ -94,13 +97,18 @@ func (w *c15World) body() {
 			// Stop may report an error (e.g. a TLS close notification that could not
 			// be sent); the statement is about the state after Stop returned, which is
 			// judged at the end whatever Stop returned.
-			if err := w.srv.Stop(); err != nil {
+			w.inCall = pos + ": Stop"
+			err := w.srv.Stop()
+			w.inCall = ""
+			if err != nil {
 				w.notes = append(w.notes, pos+": Stop returned "+err.Error())
 			}
 			w.running = false
 			w.stops++
 		case 'R':
+			w.inCall = pos + ": Restart"
 			err := w.srv.Restart()
+			w.inCall = ""
 			w.stops++
 			if err != nil {
 				// only a Restart that returns WITHOUT error promises a serving
@@ -183,6 +191,16 @@ func (w *c15World) connect(overTLS bool) (*sched.Client, sched.Outcome) {
 }
 
 func (w *c15World) atQuiet(e *vrt.Exec) {
+	if w.inCall != "" {
+		parked := ""
+		for _, t := range e.ThreadStates() {
+			if t.ID == 0 {
+				parked = t.Parked
+			}
+		}
+		w.fail("call-did-not-return", w.inCall+" never returned: the calling goroutine is parked at "+parked+" and nothing can wake it")
+		return
+	}
 	// (b)/(c): judged at final quiescence
 	conns := len(w.srv.Conns())
 	if !w.running {
